@@ -189,17 +189,29 @@ func limbCase(rp *reporter, ln *LimbLine, n [5]uint64, salt int64) {
 			value("Mul", a, ref.FSqr(val), 1)
 		case "Sqr":
 			var r secp256k1.Field
-			fresh().Sqr(&r)
+			a := fresh()
+			a.Sqr(&r)
 			value("Sqr", &r, ref.FSqr(val), 1)
+			if !bytes.Equal(normBytes(a), v32) {
+				rp.fail(0, "C08:field:Sqr:operand-changed", "Field.Sqr changed its operand", bts())
+			}
 		case "Inv":
 			var r, rv secp256k1.Field
-			fresh().Inv(&r)
-			fresh().InvVar(&rv)
+			a := fresh()
+			a.Inv(&r)
+			a.InvVar(&rv)
+			if !bytes.Equal(normBytes(a), v32) {
+				rp.fail(0, "C08:field:Inv:operand-changed", "Field.Inv / InvVar changed its operand", bts())
+			}
 			value("Inv", &r, ref.FInv(val), 1)
 			value("InvVar", &rv, ref.FInv(val), 1)
 		case "Negate":
 			var r secp256k1.Field
-			fresh().Negate(&r, uint64(ln.M))
+			a := fresh()
+			a.Negate(&r, uint64(ln.M))
+			if !bytes.Equal(normBytes(a), v32) {
+				rp.fail(0, "C08:field:Negate:operand-changed", "Field.Negate changed its operand", bts())
+			}
 			value("Negate", &r, ref.FNeg(val), ln.M+1)
 		case "SetAdd":
 			a := fresh()
@@ -216,5 +228,10 @@ func limbCase(rp *reporter, ln *LimbLine, n [5]uint64, salt int64) {
 			sum.infra("unknown limb operation %q", op)
 			return
 		}
+	}
+	// the generic second operand was an input of Mul / SetAdd only: it still holds its value
+	sum.add(0, 0, 1)
+	if !bytes.Equal(normBytes(&g), ref.B32(gen)) {
+		rp.fail(0, "C08:field:operand-changed", "a Field method changed the value of an operand that is not its destination", bts())
 	}
 }
